@@ -1,4 +1,5 @@
 import BarterModel.Lemmas.ExecManager
+import BarterModel.Lemmas.Review2
 /-!
 # C07 — Every execution request is answered exactly once (response or timeout)   [PARTIAL]
 
@@ -16,8 +17,12 @@ whatever key the client wrote — see the `example`s at the end.
 
 What is **not** modelled, hence not proved (the reason for PARTIAL): `FuturesUnordered`,
 `tokio::select!` fairness (that a ready arm is eventually taken), timer-wheel granularity and
-wake-ups. Liveness is therefore only `eventually_resolved_partial`: *if* the ready futures are
-polled after their deadlines, nothing stays in flight.
+wake-ups. Liveness is therefore conditional on the schedule: *if* the futures are polled after
+their deadlines, nothing stays in flight. Inside the model this is proved for **every** such
+schedule (`fair_liveness`, `eventually_resolved_request`, `eventually_resolved` at the end of the
+file, added after the independent review, item C07-1); `eventually_resolved_partial` is the older
+one-schedule instance. That the runtime *does* poll (the fairness hypothesis `PolledAfterDeadline`)
+is what stays outside the model.
 -/
 namespace BarterModel.Props.C07
 open BarterModel.ExecManager
@@ -238,7 +243,12 @@ eventually resolved", as far as the model can say it: from any reachable running
 has passed every outstanding deadline and the ready futures have been polled (in any order: here
 the driver's `settleSched`), nothing is in flight and the channel carries exactly one event per
 accepted request. **Missing for full strength**: that the runtime does poll them (`select!`
-fairness, `FuturesUnordered` wake-ups, timer firing) is not modelled. -/
+fairness, `FuturesUnordered` wake-ups, timer firing) is not modelled.
+**Superseded inside the model** by `eventually_resolved` / `eventually_resolved_request` /
+`fair_liveness` below, which hold for EVERY schedule that polls each request at least once after
+its deadline and keeps the manager running (this schedule is one of them:
+`settle_schedule_is_fair`). What stays partial is only what the model does not contain: that
+tokio's `select!` / `FuturesUnordered` / timer wake-ups produce such a schedule. -/
 theorem eventually_resolved_partial (c : Cfg) (as : List Action) (he : EchoesKey c as) (dt : Nat)
     (hrun : (run c init as).status = .running)
     (hd : ∀ r ∈ (run c init as).pending, c.deadline r ≤ (run c init as).now + dt) :
@@ -323,5 +333,254 @@ example : let q : ReqSpec := ⟨.open, ⟨0, 1, 5, 7⟩, 3, ⟨some 1, .ok, fals
 /-- … and one that echoes another configured instrument gets the event attributed to that one. -/
 example : let q : ReqSpec := ⟨.open, ⟨0, 1, 5, 7⟩, 3, ⟨some 1, .ok, false, ⟨0, 0, 5, 7⟩, 3⟩⟩
     (run c0 init [.intake q, .tick 1, .poll 0]).out.map (·.key.instrument) = [0] := by decide
+
+/-! ## Added after the independent review (`audit/REVIEW-notes.md`, C07)
+
+### C07-1 — liveness for EVERY fair schedule (was: one schedule only)
+
+"An order the engine shows as in flight is always eventually resolved." The model has no scheduler,
+so the statement is conditional on the schedule — but it now quantifies over **all** schedules that
+meet the condition, not over the single schedule `tick dt ++ settleSched`. The condition is the
+weakest one that makes sense for a `Timeout` future: the request is polled **at least once at or
+after its deadline** (this is what tokio's timer wake-up provides) and the manager is still running
+at the end (no shutdown, no panic on an unconfigured request). Everything else in the schedule is
+arbitrary: other intakes, polls of other or non-existent requests, early polls, time steps, in any
+order and number. -/
+
+/-- (4c) `fair_liveness` — from ANY state satisfying the invariant (in particular any reachable
+one): a request that is in flight and whose deadline has passed is resolved, and no longer in
+flight, after EVERY continuation `bs` that contains a poll of it and leaves the manager running.
+No hypothesis on the client (it may never answer), none on the rest of `bs`. -/
+theorem fair_liveness (c : Cfg) (s : State) (r : Req) (bs : List Action) (hi : Inv c s)
+    (hr : r ∈ s.pending) (hd : c.deadline r ≤ s.now) (hp : Action.poll r.rid ∈ bs)
+    (hrun : (run c s bs).status = .running) :
+    (∃ x ∈ (run c s bs).resolved, x.req = r) ∧ r ∉ (run c s bs).pending :=
+  have h := overdue_poll_resolves c bs s r hi hr hd hp hrun
+  ⟨h, resolved_not_pending (inv_run c bs s hi) h⟩
+
+/-- The fairness condition for one request: somewhere in the schedule `as` the request has been
+accepted, the clock has reached its deadline, and a poll of it follows (anywhere later). -/
+def PolledAfterDeadline (c : Cfg) (as : List Action) (r : Req) : Prop :=
+  ∃ as1 bs, as = as1 ++ bs ∧ r ∈ (run c init as1).accepted ∧
+    c.deadline r ≤ (run c init as1).now ∧ Action.poll r.rid ∈ bs
+
+/-- A schedule is fair when every request it makes the manager accept is polled at least once
+after its deadline. -/
+def FairSchedule (c : Cfg) (as : List Action) : Prop :=
+  ∀ r ∈ (run c init as).accepted, PolledAfterDeadline c as r
+
+/-- (4d) `eventually_resolved_request` — per request, no hypothesis about the others and none
+about the client: in every schedule from the initial state that keeps the manager running, a
+request that is polled at least once after its deadline has been accepted, is resolved, and is not
+in flight at the end. (It may have been resolved long before that poll — by its response — or by
+that poll, or by any poll in between.) -/
+theorem eventually_resolved_request (c : Cfg) (as : List Action) (r : Req)
+    (hrun : (run c init as).status = .running) (hp : PolledAfterDeadline c as r) :
+    r ∈ (run c init as).accepted ∧ (∃ x ∈ (run c init as).resolved, x.req = r) ∧
+      r ∉ (run c init as).pending := by
+  obtain ⟨as1, bs, rfl, hacc, hd, hpoll⟩ := hp
+  rw [run_append] at hrun ⊢
+  have hi1 := inv_reach c as1
+  have hrun1 := run_running_back c bs _ hrun
+  have hres : Resolved (run c (run c init as1) bs) r := by
+    rcases accepted_resolved_or_pending hi1 hrun1 hacc with h | h
+    · exact resolved_mono_run c bs _ r h
+    · exact overdue_poll_resolves c bs _ r hi1 h hd hpoll hrun
+  exact ⟨accepted_mono_run c bs _ r hacc, hres, resolved_not_pending (inv_run c bs _ hi1) hres⟩
+
+/-- (4e) `eventually_nothing_in_flight` — every fair schedule that keeps the manager running ends
+with nothing in flight and every accepted request resolved (the resolutions are a permutation of
+the accepted requests). No hypothesis on the clients (`EchoesKey` not needed). -/
+theorem eventually_nothing_in_flight (c : Cfg) (as : List Action)
+    (hrun : (run c init as).status = .running) (hfair : FairSchedule c as) :
+    let s := run c init as
+    s.pending = [] ∧ (∀ r ∈ s.accepted, ∃ x ∈ s.resolved, x.req = r) ∧
+      (s.resolved.map (·.req)).Perm s.accepted := by
+  intro s
+  have hempty : s.pending = [] := by
+    apply List.eq_nil_iff_forall_not_mem.mpr
+    intro r hr
+    have hacc := pending_accepted (inv_reach c as) r hr
+    exact (eventually_resolved_request c as r hrun (hfair r hacc)).2.2 hr
+  refine ⟨hempty, fun r hr => (eventually_resolved_request c as r hrun (hfair r hr)).2.1, ?_⟩
+  have hp := (inv_reach c as).part
+  rw [(inv_reach c as).running hrun] at hp
+  show ((run c init as).resolved.map (·.req)).Perm _
+  have : (run c init as).pending = [] := hempty
+  simpa [this] using hp
+
+/-- (4f) `eventually_resolved` — the property-level liveness statement: **every** schedule that
+keeps the manager running and polls each accepted request at least once after its deadline
+resolves every accepted request: nothing is in flight, each accepted request has its resolution
+and the prescribed event for it is on the channel, and the channel carries exactly one event per
+accepted request (as many events as requests, the same identities with multiplicity).
+Hypotheses: `EchoesKey` (faithful clients; needed only for the event clauses, see
+`eventually_nothing_in_flight`), the manager is running at the end, `FairSchedule`.
+Not modelled, hence the remaining partiality of C07: that `tokio::select!`, `FuturesUnordered` and
+the timer wheel produce a fair schedule. -/
+theorem eventually_resolved (c : Cfg) (as : List Action) (he : EchoesKey c as)
+    (hrun : (run c init as).status = .running) (hfair : FairSchedule c as) :
+    let s := run c init as
+    s.pending = [] ∧ (∀ r ∈ s.accepted, ∃ x ∈ s.resolved, x.req = r ∧ x.event ∈ s.out) ∧
+      s.out = s.resolved.map Resolution.event ∧ s.out.length = s.accepted.length ∧
+      (s.out.map Event.ident).Perm (s.accepted.map Req.ident) := by
+  intro s
+  have h0 := eventually_nothing_in_flight c as hrun hfair
+  have hq := quiescent_exactly_one c as he hrun h0.1
+  refine ⟨h0.1, ?_, hq.2.1, hq.2.2.1, hq.2.2.2⟩
+  intro r hr
+  obtain ⟨x, hx, hxr⟩ := h0.2.1 r hr
+  refine ⟨x, hx, hxr, ?_⟩
+  show x.event ∈ (run c init as).out
+  rw [hq.2.1]
+  exact List.mem_map.mpr ⟨x, hx, rfl⟩
+
+/-- The schedule of `eventually_resolved_partial` is an instance: under that theorem's hypothesis
+every request in flight after `as` is `PolledAfterDeadline` in `as ++ [tick dt] ++ settleSched`. -/
+theorem settle_schedule_is_fair (c : Cfg) (as : List Action) (dt : Nat)
+    (hd : ∀ r ∈ (run c init as).pending, c.deadline r ≤ (run c init as).now + dt) :
+    ∀ r ∈ (run c init as).pending,
+      PolledAfterDeadline c (as ++ [.tick dt] ++ settleSched c (run c init (as ++ [.tick dt]))) r := by
+  intro r hr
+  have hs1 : run c init (as ++ [.tick dt]) = step c (run c init as) (.tick dt) := by
+    simp [run, List.foldl_append]
+  refine ⟨as ++ [.tick dt], _, rfl, ?_, ?_, ?_⟩
+  · rw [hs1]; exact pending_accepted (inv_reach c as) r hr
+  · rw [hs1]; exact hd r hr
+  · rw [hs1]
+    simp only [settleSched, List.mem_map, List.mem_filter, decide_eq_true_eq]
+    exact ⟨r, ⟨hr, Nat.le_trans (deadline_ready c r) (hd r hr)⟩, rfl⟩
+
+/-! ### C07-3 / C07-4 — attribution for every reply payload of the model
+
+`attribution` assumes `EchoesKey`, whose third conjunct restricts the client's *payload* (an
+`InstrumentInvalid` error must name a configured instrument). The attribution clause itself does
+not depend on the payload: the two theorems below state it for an **arbitrary** `Reply` and an
+arbitrary echoed body — the payload only decides whether an event is emitted at all
+(`unanswered_iff`).
+
+**Limits of the model type `Reply`** (`Model/ExecManager.lean`, not edited): it has three
+constructors (`ok`, `rejected`, `invalidIns i`). It cannot express (a) a client that *answers* with
+`Err(UnindexedOrderError::Connectivity(_))` (indexer.rs:253-258 passes it through unchanged): in
+the code such a response yields an event that is indistinguishable from the manager's own timeout
+event, so the last conjunct below (`fate = timeout ↔ outcome = timeout`) holds in the model by
+construction and is NOT a statement about such clients; (b) the asset-carrying errors
+`ApiError::AssetInvalid / BalanceInsufficient(asset, _)`, which go through `find_asset_index`
+(indexer.rs:203-220) and are filtered exactly like `invalidIns` with an unknown name — the model
+has no asset table; `invalidIns i` with `i ≥ nInstr` is the representative of every "name the
+indexer does not know" case; (c) `RateLimit`, `OrderAlreadyCancelled`, `OrderAlreadyFullyFilled`,
+which carry no name and behave like `rejected`. Extending `Reply` needs a model (and driver /
+harness) change and is left as recorded. -/
+
+/-- The client echoes the request's own key; nothing is assumed about the payload (reply, error
+names, echoed static fields). -/
+def EchoesKeyOnly (as : List Action) : Prop :=
+  ∀ q, Action.intake q ∈ as → q.script.echo = q.key
+
+/-- (3a) `attribution_unconditional` — no hypothesis at all, any reply payload: every event on the
+channel comes from exactly the resolution of an accepted request, has that request's kind, carries
+the key the client echoed (if it is the client's response) or the request's own key (if it is the
+timeout), names the manager's own exchange and a configured instrument, and says `timeout` exactly
+when the request's future timed out. -/
+theorem attribution_unconditional (c : Cfg) (as : List Action) :
+    ∀ e ∈ (run c init as).out, ∃ x ∈ (run c init as).resolved,
+      x.req ∈ (run c init as).accepted ∧ eventOf c x.req x.fate = some e ∧
+      e.kind = x.req.spec.kind ∧
+      (x.fate = .response → e.key = x.req.spec.script.echo) ∧
+      (x.fate = .timeout → e.key = x.req.spec.key) ∧
+      e.exchange = c.exchange ∧ e.key.instrument < c.nInstr ∧
+      (x.fate = .timeout ↔ e.outcome = .timeout) := by
+  intro e hm
+  have h := inv_reach c as
+  rw [h.out] at hm
+  obtain ⟨x, hx, hev⟩ := List.mem_filterMap.mp hm
+  have hacc := resolved_accepted h x hx
+  have ⟨h1, h2, h2', h3, h4, h5⟩ := eventOf_some c x.req x.fate e hev
+  have hconf : c.configured e.key = true := by
+    cases hf : x.fate with
+    | response => exact h4 hf
+    | timeout => rw [h2' hf]; exact (h.conf x.req hacc).1
+  simp only [Cfg.configured, Bool.and_eq_true, beq_iff_eq, decide_eq_true_eq] at hconf
+  exact ⟨x, hx, hacc, hev, h1, h2, h2', by rw [h3]; exact hconf.1, hconf.2, h5⟩
+
+/-- (3b) `attribution_any_reply` — `attribution` for an arbitrary reply payload: if the clients
+echo the request's key (`EchoesKeyOnly`; nothing about reply, error names or static fields), every
+event on the channel belongs to an accepted request: same kind, same exchange / instrument /
+strategy / client order id, the manager's own exchange, a configured instrument; `timeout` exactly
+for timed-out futures. -/
+theorem attribution_any_reply (c : Cfg) (as : List Action) (hk : EchoesKeyOnly as) :
+    ∀ e ∈ (run c init as).out, ∃ x ∈ (run c init as).resolved,
+      x.req ∈ (run c init as).accepted ∧ eventOf c x.req x.fate = some e ∧
+      e.kind = x.req.spec.kind ∧ e.key = x.req.spec.key ∧ e.exchange = c.exchange ∧
+      e.key.instrument < c.nInstr ∧ (x.fate = .timeout ↔ e.outcome = .timeout) := by
+  intro e hm
+  obtain ⟨x, hx, hacc, hev, h1, h2, h2', h3, h4, h5⟩ := attribution_unconditional c as e hm
+  refine ⟨x, hx, hacc, hev, h1, ?_, h3, h4, h5⟩
+  rcases accepted_run c as init x.req hacc with h | h
+  · simp [init] at h
+  · cases hf : x.fate
+    · rw [h2 hf]; exact hk _ h
+    · exact h2' hf
+
+/-- (3c) `unanswered_iff` — exactly when "neither" happens (a request leaves flight with no event,
+the `continue` of manager.rs:282-289 / 308-315), for any payload and without hypotheses: the future
+completed with the client's response and the indexer does not know the echoed key or the instrument
+named in the error. A timed-out future always yields its event. -/
+theorem unanswered_iff (c : Cfg) (as : List Action) :
+    ∀ x ∈ (run c init as).resolved,
+      (eventOf c x.req x.fate = none ↔ x.fate = .response ∧
+        (c.configured x.req.spec.script.echo = false ∨
+          ∃ i, x.req.spec.script.reply = .invalidIns i ∧ c.nInstr ≤ i)) :=
+  fun x _ => eventOf_none_iff c x.req x.fate
+
+/-! ### Non-vacuity of the fairness hypothesis, and its necessity -/
+
+/-- a fair schedule that is not of the `tick ++ settle` shape: requests accepted at different
+times, early polls, polls of ids that do not exist, a request resolved by its response before the
+deadline and polled again later, intakes between polls -/
+def sched1 : List Action :=
+  [.intake (q0 (some 3)), .intake q1, .tick 1, .poll 1, .intake (q0 none), .tick 2,
+   .poll 2, .intake q1, .poll 0, .poll 1, .poll 9, .tick 2, .poll 3]
+
+example : FairSchedule c0 sched1 ∧ (run c0 init sched1).status = .running ∧
+    (run c0 init sched1).accepted.length = 4 := by
+  refine ⟨?_, by decide, by decide⟩
+  intro r hr
+  have hacc : (run c0 init sched1).accepted =
+      [⟨0, 0, q0 (some 3)⟩, ⟨1, 0, q1⟩, ⟨2, 1, q0 none⟩, ⟨3, 3, q1⟩] := by decide
+  rw [hacc] at hr
+  simp only [List.mem_cons, List.not_mem_nil, or_false] at hr
+  rcases hr with rfl | rfl | rfl | rfl
+  · exact ⟨sched1.take 6, sched1.drop 6, by decide, by decide, by decide, by decide⟩
+  · exact ⟨sched1.take 6, sched1.drop 6, by decide, by decide, by decide, by decide⟩
+  · exact ⟨sched1.take 6, sched1.drop 6, by decide, by decide, by decide, by decide⟩
+  · exact ⟨sched1.take 12, sched1.drop 12, by decide, by decide, by decide, by decide⟩
+
+example : EchoesKey c0 sched1 := by
+  intro q hq
+  simp only [sched1, List.mem_cons, Action.intake.injEq, reduceCtorEq, List.not_mem_nil,
+    or_false, false_or] at hq
+  rcases hq with rfl | rfl | rfl | rfl <;> decide
+
+/-- the poll after the deadline is needed: a request whose client never answers, polled only before
+its deadline (and a poll of another id afterwards), stays in flight for ever -/
+example : let s := run c0 init [.intake (q0 none), .tick 1, .poll 0, .tick 5, .poll 4]
+    s.status = .running ∧ s.pending.length = 1 ∧ s.resolved = [] := by decide
+
+/-- "keeps the manager running" is needed: a shutdown drops what is in flight; later polls do
+nothing -/
+example : let s := run c0 init [.intake (q0 none), .tick 2, .shutdown, .poll 0]
+    s.status = .stopped ∧ s.pending = [] ∧ s.resolved = [] ∧ s.dropped.length = 1 := by decide
+
+/-- `attribution_any_reply` covers payloads outside `EchoesKey`: a client that echoes the key but
+names an instrument the manager does not know is `EchoesKeyOnly`, not `EchoesKey`; its answer is
+skipped (`unanswered_iff`), so no event is mis-attributed. -/
+example : let q : ReqSpec := ⟨.open, ⟨0, 1, 5, 7⟩, 3, ⟨some 1, .invalidIns 9, false, ⟨0, 1, 5, 7⟩, 8⟩⟩
+    EchoesKeyOnly [.intake q, .tick 1, .poll 0] ∧ echoes c0 q = false ∧
+      (run c0 init [.intake q, .tick 1, .poll 0]).out = [] := by
+  refine ⟨?_, by decide, by decide⟩
+  intro q' hq
+  simp only [List.mem_cons, Action.intake.injEq, reduceCtorEq, List.not_mem_nil, or_false] at hq
+  subst hq; rfl
 
 end BarterModel.Props.C07
